@@ -168,7 +168,12 @@ func (c *Ctx) cobraRegistrations() []cobraReg {
 				return
 			}
 			name := fieldName(fa.X.Type(), fa.Field)
-			for _, g := range funcValuesOf(st.Val, 0) {
+			fvs := funcValuesOf(st.Val, 0)
+			if len(fvs) == 0 {
+				// built from a table (cmd.RunE = spec.run): whatever the table's entries hold in that field
+				fvs = c.tableFuncValues(st.Val)
+			}
+			for _, g := range fvs {
 				if c.InModule(g) {
 					out = append(out, cobraReg{name, g, st.Pos()})
 				}
@@ -954,4 +959,47 @@ func (c *Ctx) readAndLockOnOnePath(root, rd *ssa.Function) bool {
 		return result
 	}
 	return summ(root)&(1<<3) != 0
+}
+
+// tableFuncValues: v is read from field F of a module struct type T (spec.run): every function value that any store in
+// the module puts into a T.F (the entries of a table of command specifications).
+func (c *Ctx) tableFuncValues(v ssa.Value) []*ssa.Function {
+	var tn string
+	var fi int
+	switch x := strip(v).(type) {
+	case *ssa.UnOp:
+		fa, ok := x.X.(*ssa.FieldAddr)
+		if !ok || x.Op != token.MUL {
+			return nil
+		}
+		tn, fi = namedTypeName(fa.X.Type()), fa.Field
+	case *ssa.Field:
+		tn, fi = namedTypeName(x.X.Type()), x.Field
+	default:
+		return nil
+	}
+	if tn == "" || strings.HasSuffix(tn, "cobra.Command") {
+		return nil
+	}
+	var out []*ssa.Function
+	seen := map[*ssa.Function]bool{}
+	for _, f := range c.Fns {
+		eachInstr(f, func(r instrRef) {
+			st, ok := r.In.(*ssa.Store)
+			if !ok {
+				return
+			}
+			fa, ok := st.Addr.(*ssa.FieldAddr)
+			if !ok || fa.Field != fi || namedTypeName(fa.X.Type()) != tn {
+				return
+			}
+			for _, g := range funcValuesOf(st.Val, 0) {
+				if !seen[g] {
+					seen[g] = true
+					out = append(out, g)
+				}
+			}
+		})
+	}
+	return out
 }
